@@ -797,3 +797,60 @@ def direct_field(body, operand, max_hops=4):
         else:
             return None
     return None
+
+
+def direct_def(body, operand, max_hops=6):
+    """Follow single-definition copies/moves of an operand; returns ('call', Call) | ('ref', base_local) |
+    ('const', k) | ('local', l) - the first non-trivial definition."""
+    op = operand
+    for _ in range(max_hops):
+        p = op_place(op)
+        if p is None:
+            return ('const', op_const(op))
+        if p[1] and p[1] != ['*']:
+            return ('place', p)
+        defs = body.defs().get(p[0], [])
+        if len(defs) != 1:
+            return ('local', p[0])
+        d = defs[0]
+        if d[2] == 'call':
+            return ('call', d[3])
+        rv = d[3]['rv']
+        if rv['k'] == 'use':
+            op = rv['op']
+        elif rv['k'] in ('ref', 'rawptr'):
+            q = rv['p']
+            if not q[1] or q[1] == ['*']:
+                op = {'c': [q[0], []]}
+                if not body.defs().get(q[0]) or len(body.defs().get(q[0])) != 1 or body.local_name(q[0]):
+                    return ('ref', q[0])
+            else:
+                return ('place', q)
+        else:
+            return ('stmt', d[3])
+    return ('local', op_local(op))
+
+
+def base_named_local(body, operand, max_hops=8):
+    """the user-named local an operand refers to through refs / derefs / copies (no calls), else None"""
+    op = operand
+    for _ in range(max_hops):
+        p = op_place(op)
+        if p is None:
+            return None
+        if body.local_name(p[0]):
+            return p[0]
+        defs = [d for d in body.defs().get(p[0], [])]
+        if len(defs) != 1 or defs[0][2] != 'assign':
+            if len(defs) == 1 and defs[0][2] == 'call' and defs[0][3].matches(r'Deref(Mut)?>::deref(_mut)?$'):
+                op = defs[0][3].args[0]
+                continue
+            return None
+        rv = defs[0][3]['rv']
+        if rv['k'] == 'use':
+            op = rv['op']
+        elif rv['k'] in ('ref', 'rawptr'):
+            op = {'c': rv['p']}
+        else:
+            return None
+    return None
